@@ -491,11 +491,13 @@ func runC07Case(c *C07Case, ch sched.Chooser) (c07Stats, string) {
 		}
 	} else {
 		var wg sync.WaitGroup
+		var gs vt.GoidSet
 		for w := range c.Workers {
 			w := w
 			wg.Add(1)
 			go func() {
 				defer wg.Done()
+				gs.Add()
 				for i, rq := range c.Workers[w] {
 					do(w, i, rq)
 				}
@@ -503,10 +505,9 @@ func runC07Case(c *C07Case, ch sched.Chooser) (c07Stats, string) {
 		}
 		done := make(chan struct{})
 		go func() { wg.Wait(); close(done) }()
-		select {
-		case <-done:
-		case <-time.After(120 * time.Second):
-			return st, "requests did not complete within 120s (deadlock?)"
+		// the requests run on the workers' own stacks (inline): all of them blocked = deadlock, some running = slow machine
+		if mis := vt.Await(done, 120*time.Second, gs.IDs, "concurrent requests"); mis != "" {
+			return st, "deadlock: " + mis
 		}
 	}
 	// final sequential reads
